@@ -593,7 +593,7 @@ func (x *X) assert(c *T, msg, knownID string, sig *T) {
 	if open {
 		extra = append(extra, x.B.Not(sig))
 	}
-	r, vals := x.check(extra, x.inputs)
+	r, vals := x.checkAssert(extra, x.inputs)
 	switch r {
 	case smt.Sat:
 		x.St.Violations = append(x.St.Violations, Violation{Msg: msg, Kind: "assert", Model: x.modelOf(vals),
